@@ -189,8 +189,11 @@ main(void)
 #endif
         fill_props(0, 0, 0, N, 0);
 #if PROG == 3
+#ifndef FAULT_ACQ
+#define FAULT_ACQ 0
+#endif
         int fault_kind = 0;
-        if (a == 0) {
+        if (a == FAULT_ACQ) {
 #ifdef FAULT_KIND
             fault_kind = FAULT_KIND; /* 1 camera, 2 storage: fixed per harness instance */
 #else
@@ -268,7 +271,7 @@ main(void)
         VASSERT(STO[0].tag_errors == 0, "C04/C07: storage received pixel bytes that are not this acquisition's frame (leftover or mixed stream)");
         VASSERT(STO[0].appended_after_fail == 0, "C09: append after a failed append");
 #if PROG == 3
-        if (a == 0) {
+        if (a == FAULT_ACQ) {
             if (fault_kind == 1) VASSERT(STO[0].frames_this_run <= CAM[0].fail_frame_at, "C09: frames appended beyond the failing camera frame");
             VASSERT(CAM[0].stops == CAM[0].starts, "C09: camera not stopped once per start after a fault");
         } else {
